@@ -164,7 +164,7 @@ def _scale(t, f, spec):
 
 def check(spec):
     tspec, fs, key = spec["t"], spec["fs"], spec["key"]
-    fam = treg.family(tspec)
+    fam = spec.get("fam") or treg.family(tspec)
     names = sorted(set(treg.leaf_names(tspec)))
     tag = "+".join(names)[:60]
 
@@ -223,12 +223,35 @@ def check(spec):
                                 f"{tspec}: compose scaled to {fs[-1]}, member scaled to {spec['fg'][0]}, compose scaled to {fs[-1]} again: "
                                 f"{k}={a.get(k)} but a fresh instance scaled once has {b[k]}")
 
+    # (5) a composition is transparent: scaling it has exactly the effect on each member that scaling the member directly has
+    if tspec["k"] == "compose":
+        from kappadata.transforms import KDTransform
+        tc = fresh()
+        _scale(tc, fs[-1], tspec)
+        for k_ in range(len(tc.transforms)):
+            ud = fresh()
+            m_ = ud.transforms[k_]
+            if not isinstance(m_, KDTransform):
+                continue
+            try:
+                m_.scale_strength(fs[-1])
+            except AssertionError:
+                continue
+            am, bm = attr_snapshot(tc.transforms[k_]), attr_snapshot(m_)
+            if not _dict_close(am, bm):
+                kk = next(x for x in bm if x not in am or not _close(am[x], bm[x]))
+                raise Violation(f"composition-does-not-scale-a-member:{type(m_).__name__}",
+                                f"{tspec}: member {k_} scaled through the composition has {kk}={am.get(kk)}, scaled directly {bm[kk]} (factor {fs[-1]})")
+
     # (2) scale(0): every requested range collapsed, identity where the transform has one
     z = fresh()
     _scale(z, 0.0, tspec)
     Rz_attr = attr_snapshot(z)
     lz, cz, x, y = spy_ranges(z, fam, key)
-    for rec in lz:
+    # "every range collapses" is claimed for transforms that support scaling; ready-made pipelines also contain members without
+    # any strength notion (random resized crop, flip), whose requested ranges legitimately stay as they are
+    pure = set(names) <= set(SCALABLE)
+    for rec in (lz if pure else []):
         if rec[0] == "uniform" and not _close(rec[1], rec[2]):
             raise Violation(f"scale(0)-range-not-collapsed:{tag}", f"{tspec}: uniform({rec[1]}, {rec[2]}) requested at strength 0")
         if rec[0] == "normal" and not _close(rec[2], 0.0):
@@ -420,6 +443,20 @@ def scal_tspec(draw, depth):
     return {"k": "scheduled", "t": draw(scal_tspec(depth - 1))}
 
 
+@st.composite
+def pil_composition(draw):
+    """compositions over PIL inputs: scalable PIL leaves (incl. KDRandAugmentCustom, which *inherits* its scaling), optionally
+    closed by a ready-made pipeline (a nested KDComposeTransform subclass) as last member"""
+    leaves = [draw(treg.leaf_spec(draw(st.sampled_from(["KDRandAugment", "KDRandAugmentCustom", "KDGaussianBlurPIL",
+                                                       "KDRandomGaussianBlurPIL"]))).filter(_positive_p))
+              for _ in range(draw(st.integers(0, 2)))]
+    tail = draw(st.sampled_from([None, "BYOLTransform0", "BYOLTransform1", "MUGSStrongLocalTransform"]))
+    members = leaves + ([{"k": "pipeline", "name": tail}] if tail else [])
+    if not members:
+        members = [draw(treg.leaf_spec("KDRandAugmentCustom"))]
+    return {"k": "compose", "m": members}
+
+
 def _wrap(ts):
     return st.fixed_dictionaries({"t": ts, "fs": st.lists(FACTORS, min_size=1, max_size=5), "fg": st.tuples(FACTORS, FACTORS).map(list),
                                   "key": st.integers(0, 50)})
@@ -440,6 +477,9 @@ FACETS = [_leaf_facet(n) for n in SCALABLE] + [
     Facet("compositions", check, strategy=lambda tier: _wrap(scal_tspec(2)),
           budget={"quick": 800, "thorough": 12000}, shards={"quick": 6, "thorough": 12},
           min_nontrivial={"quick": 150, "thorough": 2000}, case_timeout=120),
+    Facet("pil-compositions", check, strategy=lambda tier: _wrap(pil_composition()).map(lambda s: dict(s, fam="pipeline")),
+          budget={"quick": 200, "thorough": 2500}, shards={"quick": 4, "thorough": 8},
+          min_nontrivial={"quick": 50, "thorough": 500}, case_timeout=300),
     Facet("scheduled-simulated-workers", check_scheduled_sim, strategy=lambda tier: SCHED,
           budget={"quick": 600, "thorough": 8000}, shards={"quick": 2, "thorough": 6}, min_nontrivial={"quick": 150, "thorough": 1500}),
     Facet("scheduled-real-loader", check_scheduled_real,
